@@ -523,9 +523,133 @@ def h5_struct(tree=0, timeout=200, part=None, exclude=(), **kw):
 
 
 # ------------------------------------------------------------------------------------------- replay on the real code
+# ------------------------------------------------------------------------------------------ H6 long objects (beyond the symbolic bounds)
+def _spell(v, k=0):
+    """a reference writer that varies the spelling with position k: octal / named / literal escapes and line continuations in strings, white space inside hex strings,
+    #xx escapes in names, comments and every end-of-line convention between tokens.  Returns bytes."""
+    SEPS = [b" ", b"\n", b"\r\n", b"\t", b" % c\n", b"\x0c", b"  "]
+    if v is None:
+        return b"null"
+    if v is True or v is False:
+        return b"true" if v else b"false"
+    if isinstance(v, int):
+        return (b"+%d" % v) if (k % 5 == 0 and v >= 0) else b"%d" % v
+    if isinstance(v, float):
+        return repr(v).encode()
+    if isinstance(v, str):                                    # name
+        out = bytearray(b"/")
+        for i, ch in enumerate(v.encode("latin1")):
+            out += (b"#%02x" % ch) if (ch < 33 or ch > 126 or ch in b"#/()<>[]{}%" or (i + k) % 4 == 0) else bytes([ch])
+        return bytes(out)
+    if isinstance(v, bytes):
+        if k % 2:                                             # hexadecimal string with white space in it
+            h = v.hex().encode()
+            return b"<" + b"".join(h[i:i + 3] + [b"", b" ", b"\n"][(i + k) % 3] for i in range(0, len(h), 3)) + b">"
+        out = bytearray(b"(")
+        for i, ch in enumerate(v):
+            m = (i + k) % 6
+            if ch in b"()\\":
+                out += b"\\" + bytes([ch])
+            elif ch == 13:
+                out += b"\\r"                                 # a raw CR would be normalised away (open finding KF-C01-raw-eol)
+            elif ch < 32 or ch > 126 or m == 0:
+                out += b"\\%03o" % ch
+            elif m == 3:
+                out += bytes([ch]) + b"\\\n"                  # line continuation after the character
+            else:
+                out += bytes([ch])
+        return bytes(out) + b")"
+    if isinstance(v, list):
+        return b"[" + b"".join(SEPS[(i + k) % len(SEPS)] + _spell(x, k + i) for i, x in enumerate(v)) + SEPS[k % len(SEPS)] + b"]"
+    if isinstance(v, dict):
+        return b"<<" + b"".join(SEPS[(i + k) % len(SEPS)] + _spell(key, k + i) + SEPS[(i + k + 1) % len(SEPS)] + _spell(x, k + i + 1) for i, (key, x) in enumerate(v.items())) + b">>"
+    raise TypeError(v)
+
+
+def _same_value(got, exp):
+    import pdfminer.psparser as ps
+    if isinstance(exp, str):
+        return isinstance(got, ps.PSLiteral) and got.name == exp
+    if isinstance(exp, bool) or exp is None:
+        return got is exp
+    if isinstance(exp, (int, float, bytes)):
+        return type(got) is type(exp) and got == exp
+    if isinstance(exp, list):
+        return isinstance(got, list) and len(got) == len(exp) and all(_same_value(a, b) for a, b in zip(got, exp))
+    if isinstance(exp, dict):
+        return isinstance(got, dict) and list(got.keys()) == list(exp.keys()) and all(_same_value(got[k], exp[k]) for k in exp)
+    return False
+
+
+LONG_OBJECTS = ["array of integers", "array of names", "nested arrays", "nested dictionaries", "dictionary with many keys", "long literal string", "long hex string", "long name", "mixed tree"]
+LONG_N = [100, 1365, 4095, 4096, 4097, 20000]
+
+
+def long_object(kind, n):
+    if kind == 0:
+        return [(-1) ** i * (i * 7919 % 100003) for i in range(n)]
+    if kind == 1:
+        return ["N%d#x" % i for i in range(n)]
+    if kind == 2:
+        v = [1, b"x"]
+        for i in range(min(n, 400)):
+            v = [i, v, "k"]
+        return v
+    if kind == 3:
+        v = {"Leaf": b"(end)"}
+        for i in range(min(n, 400)):
+            v = {"D%d" % i: v, "I": i}
+        return v
+    if kind == 4:
+        return {"K%d" % i: [i, b"v%d" % i] for i in range(n)}
+    if kind == 5:
+        return bytes((i * 37 + 11) % 256 for i in range(n))
+    if kind == 6:
+        return [bytes((i * 101 + 3) % 256 for i in range(n)), 7]         # wrapped in an array: _spell writes element 1 (odd k) as a hex string
+    if kind == 7:
+        return "".join(chr(33 + (i * 7) % 94) for i in range(min(n, 4097)))
+    return {"A": [long_object(0, n // 10), {"B": long_object(5, n // 10), "C": [None, True, False, 1.5, -0.25]}], "D": long_object(1, n // 20)}
+
+
+def long_obj_check(kind, n):
+    import sys
+    v = long_object(kind, n)
+    old = sys.getrecursionlimit()
+    sys.setrecursionlimit(40000)              # for this writer and comparison (recursive); the parser itself keeps an explicit stack
+    try:
+        data = _spell(v, 1 if kind == 6 else 0) + b" "
+        ref = None
+        for bufsiz in (4096, 509, 4097):
+            objs, err = _real_parse(data, bufsiz)
+            if err:
+                return "%s (n=%d, %d bytes), BUFSIZ %d: %s" % (LONG_OBJECTS[kind], n, len(data), bufsiz, err[:200])
+            if len(objs) != 1 or not _same_value(objs[0][1], v):
+                return "%s (n=%d, %d bytes), BUFSIZ %d: the object read back differs from the one written (%d objects)" % (LONG_OBJECTS[kind], n, len(data), bufsiz, len(objs))
+        return None
+    finally:
+        sys.setrecursionlimit(old)
+
+
+def h6_long(timeout=300, part=None, **kw):
+    """objects of 100 .. 20000 elements / bytes / nesting levels written by a reference writer that varies every spelling, read back by the real PDFStreamParser at three buffer sizes"""
+    import pdfminer.pdfparser as pp
+
+    def fn(ex):
+        kind = ex.choice(len(LONG_OBJECTS), "kind")
+        n = LONG_N[ex.choice(len(LONG_N), "n")]
+        r = long_obj_check(kind, n)
+        ex.require(r is None, r or "", kind=kind, n=n)
+
+    def conc(m, info):
+        return {"long": True, "kind": info["kind"], "n": info["n"]}
+    return core.run_symx("H6_long", fn, [pp.PDFStreamParser.nextobject], {"objects": LONG_OBJECTS, "sizes": LONG_N, "BUFSIZ": [4096, 509, 4097]}, timeout, concretize=conc, part=part)
+
+
 def replay(harness, inp):
     import pdfminer.psparser as ps
     import pdfminer.pdftypes as pt
+    if inp.get("long"):
+        return long_obj_check(inp["kind"], inp["n"])
     data, bufsiz = inp["data"], inp["bufsiz"]
     objs, err = _real_parse(data, bufsiz)
     if err:
@@ -572,7 +696,7 @@ def replay(harness, inp):
 
 
 def jobs(tier):
-    J = []
+    J = [Job("H6_long:%d" % k, "h6_long", {"part": [k, 4, 5]}, 300, "H6_long") for k in range(4)]
     if tier == "quick":
         for k in range(8):
             J.append(Job("H1_strings:n2:%d" % k, "h1_strings", {"n": 2, "part": [k, 8, 10]}, 200, "H1_strings"))
